@@ -369,8 +369,19 @@ func (a *ArithR) Math(e *Exec, st *State, name string, args []*Term, where strin
 func (a *ArithR) ufMath(e *Exec, st *State, name string, x *Term, where string) *Term {
 	s := a.S
 	fn := "uf_" + name
-	r := s.UF(fn, SReal, x)
 	key := fmt.Sprintf("%s#%d", fn, x.ID)
+	var r *Term
+	if e.UFFresh {
+		// over-approximation for the nonlinear solvers: one fresh variable per application site
+		// (same argument term = same variable), constrained by the site axioms only
+		if old, ok := e.ufFreshVars[key]; ok {
+			return old
+		}
+		r = e.freshVar("uf_"+name, SReal)
+		e.ufFreshVars[key] = r
+	} else {
+		r = s.UF(fn, SReal, x)
+	}
 	if e.axiomSeen[key] {
 		return r
 	}
@@ -388,6 +399,9 @@ func (a *ArithR) ufMath(e *Exec, st *State, name string, x *Term, where string) 
 		ax(s.Eq(s.Eq(x, zero), s.Eq(r, one)))
 		// exp(x) >= 1 + x
 		ax(s.Le(s.Add(one, x), r))
+		// direct forms (redundant, but they save the solvers a case split)
+		ax(s.Implies(s.Le(x, zero), s.Le(r, one)))
+		ax(s.Implies(s.Le(zero, x), s.Le(one, r)))
 	case "Log", "Log10":
 		e.side("math-domain", st, s.Lt(zero, x), where+" Log")
 		ax(s.Implies(s.Lt(zero, x), s.And(s.Eq(s.Lt(x, one), s.Lt(r, zero)), s.Eq(s.Eq(x, one), s.Eq(r, zero)))))
@@ -422,7 +436,15 @@ func (a *ArithR) ufMath(e *Exec, st *State, name string, x *Term, where string) 
 			sites = sites[len(sites)-8:] // pairwise monotonicity only against the most recent sites
 		}
 		for _, prev := range sites {
-			pr := s.UF(fn, SReal, prev)
+			var pr *Term
+			if e.UFFresh {
+				pr = e.ufFreshVars[fmt.Sprintf("%s#%d", fn, prev.ID)]
+				if pr == nil {
+					continue
+				}
+			} else {
+				pr = s.UF(fn, SReal, prev)
+			}
 			if mono > 0 {
 				ax(s.Eq(s.Lt(prev, x), s.Lt(pr, r)))
 			} else {
@@ -502,8 +524,17 @@ func (a *ArithR) ufMath(e *Exec, st *State, name string, x *Term, where string) 
 
 func (a *ArithR) ufPow(e *Exec, st *State, x, y *Term, where string) *Term {
 	s := a.S
-	r := s.UF("uf_Pow", SReal, x, y)
 	key := fmt.Sprintf("uf_Pow#%d#%d", x.ID, y.ID)
+	var r *Term
+	if e.UFFresh {
+		if old, ok := e.ufFreshVars[key]; ok {
+			return old
+		}
+		r = e.freshVar("uf_Pow", SReal)
+		e.ufFreshVars[key] = r
+	} else {
+		r = s.UF("uf_Pow", SReal, x, y)
+	}
 	if e.axiomSeen[key] {
 		return r
 	}
@@ -514,6 +545,7 @@ func (a *ArithR) ufPow(e *Exec, st *State, x, y *Term, where string) *Term {
 	e.side("math-domain", st, s.Le(zero, x), where+" Pow base")
 	// x>0 => r>0 ; x=0,y>0 => r=0 ; 0<=x<=1,y>=0 => 0<=r<=1 ; x>=1,y>=0 => r>=1
 	ax(s.Implies(s.Lt(zero, x), s.Lt(zero, r)))
+	ax(s.Implies(s.Le(zero, x), s.Le(zero, r)))
 	ax(s.Implies(s.And(s.Eq(x, zero), s.Lt(zero, y)), s.Eq(r, zero)))
 	ax(s.Implies(s.And(s.Le(zero, x), s.Le(x, one), s.Le(zero, y)), s.And(s.Le(zero, r), s.Le(r, one))))
 	ax(s.Implies(s.And(s.Le(one, x), s.Le(zero, y)), s.Le(one, r)))
